@@ -16,6 +16,8 @@ import Driver.C08
 import Driver.C09
 import Driver.C17
 import Driver.C19
+import Driver.C01
+import Driver.C04
 /-!
 # Line-protocol driver
 
@@ -46,6 +48,8 @@ def dispatch (inp obs : List String) : Verdict :=
   | some "C09" => Driver.C09.run inp obs
   | some "C17" => Driver.C17.run inp obs
   | some "C19" => Driver.C19.run inp obs
+  | some "C01" => Driver.C01.run inp obs
+  | some "C04" => Driver.C04.run inp obs
   | _ => { agree := false, model := "unknown-model" }
 
 partial def loop (h : IO.FS.Stream) (out : IO.FS.Stream) : IO Unit := do
